@@ -3,6 +3,8 @@ package main
 import (
 	"bytes"
 	"fmt"
+	"os"
+	"runtime/debug"
 
 	disc "github.com/IBM/TSS/disc"
 	"github.com/IBM/TSS/threshold"
@@ -19,6 +21,9 @@ func safely(f func() string) (res string) {
 	defer func() {
 		if e := recover(); e != nil {
 			res = "panic"
+			if os.Getenv("VERIF_PANIC_TRACE") != "" {
+				fmt.Fprintf(os.Stderr, "panic: %v\n%s\n", e, debug.Stack())
+			}
 		}
 	}()
 	return f()
